@@ -236,6 +236,10 @@ func rangeLimitIterator(i Iterator, r *Range, l *Limit, reverse bool) *RangeLimi
 				it.Iterator.SeekToFirst()
 				if it.Iterator.Valid() && bytes.Compare(it.Iterator.RefKey(), r.Max) == 1 {
 					dbLog.Infof("iterator seek to last key %v should not great than seek to max %v", it.Iterator.RefKey(), r.Max)
+					// no key <= max exists: step back off the first key so that the
+					// iterator is invalid instead of handing out a key beyond the range
+					// (cursors that do not enforce bounds themselves land here)
+					it.Iterator.Prev()
 				}
 			}
 			if r.Type&common.RangeROpen > 0 {
